@@ -35,7 +35,7 @@ def fn(name, body):
 
 
 def H(n, d, **kw):
-    return Harness(n, d, unwind=8, unwindset=c01.UWS + [(r"^c15::", 12), (r"utf8|Chars|chars", 8)], cap_s=600, cuts=c01.CUTS_NOZ,
+    return Harness(n, d, unwind=10, unwindset=c01.UWS + [(r"^c15::", 12), (r"utf8|Chars|chars", 8)], cap_s=600, cuts=c01.CUTS_NOZ,
                    recursion=[(r"parse_term_from_tag|parse_term$|refetf::(accepts_at|denotes|emit)", 1)], **kw)
 
 
@@ -54,7 +54,10 @@ def generate(tier, seed):
         ("c15_term__f64", "    term_rt::<f64>(vk::f64_finite());", "every finite f64"),
         ("c15_term__f32", "    let f = vk::f32_bits(); vk::assume(!f.is_nan());\n    term_rt::<f32>(f);", "every non-NaN f32"),
         ("c15_term__bool", "    term_rt::<bool>(vk::bool());", "bool"),
-        ("c15_term__char", "    term_rt::<char>(vk::char());", "every char incl. non-BMP"),
+        ("c15_term__char_len1", "    let c = vk::char(); vk::assume(c.len_utf8() == 1);\n    term_rt::<char>(c);", "every 1-byte char"),
+        ("c15_term__char_len2", "    let c = vk::char(); vk::assume(c.len_utf8() == 2);\n    term_rt::<char>(c);", "every 2-byte char"),
+        ("c15_term__char_len3", "    let c = vk::char(); vk::assume(c.len_utf8() == 3);\n    term_rt::<char>(c);", "every 3-byte char"),
+        ("c15_term__char_len4", "    let c = vk::char(); vk::assume(c.len_utf8() == 4);\n    term_rt::<char>(c);", "every 4-byte (non-BMP) char"),
         ("c15_term__unit", "    term_rt::<()>(());", "unit"),
         ("c15_term__option_i64", "    let v = if vk::bool() { Some(vk::i64()) } else { None };\n    term_rt::<Option<i64>>(v);", "Option<i64>"),
         ("c15_term__tuple", "    term_rt::<(i64, u8)>((vk::i64(), vk::u8()));", "(i64, u8)"),
